@@ -951,6 +951,14 @@ def value_pairs():
     prs.append(("; ".join(["v1 = (1)"] + ["v%d = (v%d) + 1" % (k, k - 1) for k in range(2, 61)]) + "; v60", "60"))
     prs.append(("sum({%s})" % ", ".join("(%d)" % k for k in range(60)), str(sum(range(60)))))
     prs.append(("(" * 30 + "7" + ")" * 30, "7"))
+    # a long run of one operator is still a left fold (floating-point addition shows the grouping)
+    chain = "1.0e16" + " + 0.3" * 250
+    left = 1.0e16
+    for _ in range(250):
+        left = left + 0.3
+    prs.append(("s = %s; s - 1.0e16" % chain, repr(left - 1.0e16) if (left - 1.0e16) != int(left - 1.0e16) else str(int(left - 1.0e16))))
+    prs.append(("1" + " - 1" * 300, str(1 - 300)))
+    prs.append(("2" + " / 2" * 60 + " * 2^60", "2"))
     for t in ("3 m s", "{k : k in 1..3}", "250 cm to m", "h = 2; h m", "2 in {1, 2}", "f = 2; f (3)", "1 to m", "sin (1) + cos (1)"):
         for ws in ("\u00a0", "\u202f", "\t", "   ", "\u2009"):
             prs.append((t.replace(" ", ws), t))
